@@ -4,8 +4,8 @@
 (* grids); the C01..C06 predicates are the LogProps definitions instantiated with those values.  *)
 EXTENDS Integers, Sequences, FiniteSets, TLC, Json
 TraceLog == ndJsonDeserialize("trace.ndjson")
-VARIABLES l, acked, s3seg, s3idx, storeNext, hwReg, nextReg, rfail, up, restarted, memNext, hwMax, viol
-ovars == <<l, acked, s3seg, s3idx, storeNext, hwReg, nextReg, rfail, up, restarted, memNext, hwMax, viol>>
+VARIABLES l, acked, s3seg, s3idx, storeNext, hwReg, nextReg, rfail, up, restarted, memNext, hwMax, lost, viol
+ovars == <<l, acked, s3seg, s3idx, storeNext, hwReg, nextReg, rfail, up, restarted, memNext, hwMax, lost, viol>>
 Range(s) == {s[i] : i \in DOMAIN s}
 S3Put(s, o) == {x \in s : x.base # o.base} \cup {o}
 LogEvs == {"Append", "FlushWait", "FlushPrepare", "PubRead", "FlushFail", "FlushCommit", "Restore"}
@@ -19,26 +19,26 @@ MaxShown(e) == IF e.ev = "Grid" /\ e.fetches # <<>>
                THEN LET H == {f.hw : f \in Range(e.fetches)} IN CHOOSE m \in H : \A x \in H : x <= m
                ELSE -1
 RefOf(e) == IF e.ev = "Grid" THEN {[base |-> x[1], cnt |-> x[2]] : x \in Range(e.ref)} ELSE {}
-P(a, sg, si, sn, hr, nr, rf, u, rs, mn, hm, rf2, rd) == INSTANCE LogProps WITH
-    acked <- a, s3seg <- sg, s3idx <- si, storeNext <- sn, hwRegressed <- hr, nextRegressed <- nr, rfail <- rf, up <- u, restarted <- rs,
+P(a, sg, si, sn, hr, nr, rf, il, u, rs, mn, hm, rf2, rd) == INSTANCE LogProps WITH
+    acked <- a, s3seg <- sg, s3idx <- si, storeNext <- sn, hwRegressed <- hr, nextRegressed <- nr, rfail <- rf, idxLost <- il, up <- u, restarted <- rs,
     memNext <- mn, hwMax <- hm, ref <- rf2, reads <- rd
 Names == {"C01_AckedDurable", "C02_Unique", "C02_Monotone", "C02_NoGap", "C02_BaseIsStored", "C03_FetchExact", "C04_Progress",
           "C05_Monotone", "C05_NotAhead", "C06_NoHide", "C06_NoReuse", "C06_Readable"}
-Bad(a, sg, si, sn, hr, nr, rf, u, rs, mn, hm, rf2, rd) == {n \in Names :
-    \/ n = "C01_AckedDurable" /\ ~P(a, sg, si, sn, hr, nr, rf, u, rs, mn, hm, rf2, rd)!C01_AckedDurable
-    \/ n = "C02_Unique" /\ ~P(a, sg, si, sn, hr, nr, rf, u, rs, mn, hm, rf2, rd)!C02_Unique
-    \/ n = "C02_Monotone" /\ ~P(a, sg, si, sn, hr, nr, rf, u, rs, mn, hm, rf2, rd)!C02_Monotone
-    \/ n = "C02_NoGap" /\ ~P(a, sg, si, sn, hr, nr, rf, u, rs, mn, hm, rf2, rd)!C02_NoGap
-    \/ n = "C02_BaseIsStored" /\ ~P(a, sg, si, sn, hr, nr, rf, u, rs, mn, hm, rf2, rd)!C02_BaseIsStored
-    \/ n = "C03_FetchExact" /\ ~P(a, sg, si, sn, hr, nr, rf, u, rs, mn, hm, rf2, rd)!C03_FetchExact
-    \/ n = "C04_Progress" /\ ~P(a, sg, si, sn, hr, nr, rf, u, rs, mn, hm, rf2, rd)!C04_Progress
-    \/ n = "C05_Monotone" /\ ~P(a, sg, si, sn, hr, nr, rf, u, rs, mn, hm, rf2, rd)!C05_Monotone
-    \/ n = "C05_NotAhead" /\ ~P(a, sg, si, sn, hr, nr, rf, u, rs, mn, hm, rf2, rd)!C05_NotAhead
-    \/ n = "C06_NoHide" /\ ~P(a, sg, si, sn, hr, nr, rf, u, rs, mn, hm, rf2, rd)!C06_NoHide
-    \/ n = "C06_NoReuse" /\ ~P(a, sg, si, sn, hr, nr, rf, u, rs, mn, hm, rf2, rd)!C06_NoReuse
-    \/ n = "C06_Readable" /\ ~P(a, sg, si, sn, hr, nr, rf, u, rs, mn, hm, rf2, rd)!C06_Readable}
+Bad(a, sg, si, sn, hr, nr, rf, il, u, rs, mn, hm, rf2, rd) == {n \in Names :
+    \/ n = "C01_AckedDurable" /\ ~P(a, sg, si, sn, hr, nr, rf, il, u, rs, mn, hm, rf2, rd)!C01_AckedDurable
+    \/ n = "C02_Unique" /\ ~P(a, sg, si, sn, hr, nr, rf, il, u, rs, mn, hm, rf2, rd)!C02_Unique
+    \/ n = "C02_Monotone" /\ ~P(a, sg, si, sn, hr, nr, rf, il, u, rs, mn, hm, rf2, rd)!C02_Monotone
+    \/ n = "C02_NoGap" /\ ~P(a, sg, si, sn, hr, nr, rf, il, u, rs, mn, hm, rf2, rd)!C02_NoGap
+    \/ n = "C02_BaseIsStored" /\ ~P(a, sg, si, sn, hr, nr, rf, il, u, rs, mn, hm, rf2, rd)!C02_BaseIsStored
+    \/ n = "C03_FetchExact" /\ ~P(a, sg, si, sn, hr, nr, rf, il, u, rs, mn, hm, rf2, rd)!C03_FetchExact
+    \/ n = "C04_Progress" /\ ~P(a, sg, si, sn, hr, nr, rf, il, u, rs, mn, hm, rf2, rd)!C04_Progress
+    \/ n = "C05_Monotone" /\ ~P(a, sg, si, sn, hr, nr, rf, il, u, rs, mn, hm, rf2, rd)!C05_Monotone
+    \/ n = "C05_NotAhead" /\ ~P(a, sg, si, sn, hr, nr, rf, il, u, rs, mn, hm, rf2, rd)!C05_NotAhead
+    \/ n = "C06_NoHide" /\ ~P(a, sg, si, sn, hr, nr, rf, il, u, rs, mn, hm, rf2, rd)!C06_NoHide
+    \/ n = "C06_NoReuse" /\ ~P(a, sg, si, sn, hr, nr, rf, il, u, rs, mn, hm, rf2, rd)!C06_NoReuse
+    \/ n = "C06_Readable" /\ ~P(a, sg, si, sn, hr, nr, rf, il, u, rs, mn, hm, rf2, rd)!C06_Readable}
 OInit == /\ l = 0 /\ acked = {} /\ s3seg = {} /\ s3idx = {} /\ storeNext = 0 /\ hwReg = FALSE /\ nextReg = FALSE
-         /\ rfail = FALSE /\ up = TRUE /\ restarted = FALSE /\ memNext = 0 /\ hwMax = 0 /\ viol = {}
+         /\ rfail = FALSE /\ up = TRUE /\ restarted = FALSE /\ memNext = 0 /\ hwMax = 0 /\ lost = {} /\ viol = {}
 Step ==
   /\ l < Len(TraceLog) /\ l' = l + 1
   /\ LET e == TraceLog[l + 1]
@@ -48,7 +48,8 @@ Step ==
         /\ s3seg' = IF reset THEN {} ELSE IF e.ev = "PutSegment" /\ e.ok
                       THEN S3Put(s3seg, [base |-> e.base, last |-> e.last, batches |-> [j \in DOMAIN e.batches |-> [id |-> e.batches[j].id, base |-> e.batches[j].base, cnt |-> e.batches[j].cnt]]])
                       ELSE s3seg
-        /\ s3idx' = IF reset THEN {} ELSE IF e.ev = "PutIndex" /\ e.ok THEN s3idx \cup {e.base} ELSE s3idx
+        /\ s3idx' = IF reset THEN {} ELSE IF e.ev = "PutIndex" /\ e.ok THEN s3idx \cup {e.base} ELSE IF e.ev = "LoseIdx" THEN s3idx \ {e.base} ELSE s3idx
+        /\ lost' = IF reset THEN {} ELSE IF e.ev = "LoseIdx" THEN lost \cup {e.base} ELSE lost
         /\ storeNext' = IF reset THEN 0 ELSE IF e.ev = "UpdateOffsets" THEN e.new ELSE storeNext
         /\ hwReg' = IF reset THEN FALSE ELSE IF e.ev = "UpdateOffsets" THEN (hwReg \/ e.new < e.prev) ELSE hwReg
         /\ hwMax' = IF reset THEN 0 ELSE IF e.ev = "UpdateOffsets" /\ e.new > hwMax THEN e.new
@@ -59,7 +60,7 @@ Step ==
         /\ memNext' = IF reset THEN 0 ELSE IF islog THEN e.st.next ELSE IF e.ev = "Restart" /\ e.ok THEN e.next ELSE memNext
         /\ nextReg' = IF reset THEN FALSE ELSE IF islog /\ up THEN (nextReg \/ e.st.next < memNext) ELSE nextReg
         /\ viol' = IF reset THEN viol
-                   ELSE viol \cup {<<l + 1, n>> : n \in Bad(acked', s3seg', s3idx', storeNext', hwReg', nextReg', rfail', up', restarted', memNext', hwMax', RefOf(e), ReadsOf(e))}
+                   ELSE viol \cup {<<l + 1, n>> : n \in Bad(acked', s3seg', s3idx' \cup lost', storeNext', hwReg', nextReg', rfail', lost' # {}, up', restarted', memNext', hwMax', RefOf(e), ReadsOf(e))}
   /\ (l' = Len(TraceLog)) => PrintT(<<"OBS", ToJson([consumed |-> l', viol |-> viol'])>>)
 OSpec == OInit /\ [][Step]_ovars
 ====
